@@ -182,12 +182,9 @@ func minimiseOrder(pool *Pool, job *fwproto.Job, step int, inv, sig string) *ord
 	}
 	// turn the schedule into an explicit one: site#visit -> permutation
 	exp := map[string][]int{}
-	cnt := map[string]int{}
 	for _, v := range r.Calls[1].Visits {
-		k := fmt.Sprintf("%s#%d", v.Site, cnt[v.Site])
-		cnt[v.Site]++
 		if v.Perm != nil {
-			exp[k] = v.Perm
+			exp[fmt.Sprintf("%s#%d", v.Site, v.Idx)] = v.Perm
 		}
 	}
 	mk := func(e map[string][]int) fwproto.Job {
@@ -202,7 +199,7 @@ func minimiseOrder(pool *Pool, job *fwproto.Job, step int, inv, sig string) *ord
 		rp.Note = "explicit form of the schedule did not reproduce; seeded schedule reported"
 		return rp
 	}
-	deadline := time.Now().Add(60 * time.Second)
+	deadline := time.Now().Add(90 * time.Second)
 	keys := make([]string, 0, len(exp))
 	for k := range exp {
 		keys = append(keys, k)
@@ -253,6 +250,44 @@ func minimiseOrder(pool *Pool, job *fwproto.Job, step int, inv, sig string) *ord
 		}
 	}
 	fin := mk(exp)
+	// shrink the sources: drop files, then lines of the root file, while the same difference shows under the same schedule.
+	// (site#visit keys stay meaningful only if the visit structure survives, which the predicate checks by itself)
+	if fin.Tree != nil {
+		for _, f := range fin.Tree.SortedFiles() {
+			if f == fin.Root || time.Now().After(deadline) {
+				continue
+			}
+			c := fin
+			c.Tree = fin.Tree.Clone()
+			delete(c.Tree.Files, f)
+			if ok, _ := ordHas(pool, &c, inv, sig); ok {
+				fin = c
+			}
+		}
+		chunks := splitLinesKeep(fin.Tree.Files[fin.Root])
+		n := 2
+		for len(chunks) >= 2 && time.Now().Before(deadline) {
+			sz := (len(chunks) + n - 1) / n
+			reduced := false
+			for s := 0; s < len(chunks); s += sz {
+				e := min(s+sz, len(chunks))
+				cand := append(append([][]byte{}, chunks[:s]...), chunks[e:]...)
+				c := fin
+				c.Tree = fin.Tree.Clone()
+				c.Tree.Files[fin.Root] = joinBytes(cand)
+				if ok, _ := ordHas(pool, &c, inv, sig); ok {
+					fin, chunks, n, reduced = c, cand, max(n-1, 2), true
+					break
+				}
+			}
+			if !reduced {
+				if n >= len(chunks) {
+					break
+				}
+				n = min(n*2, len(chunks))
+			}
+		}
+	}
 	rp.Job = fin
 	rp.Order = fin.Steps[1].Order
 	return rp
